@@ -158,7 +158,7 @@ pub fn run_node(data: &Value) -> Vec<Line> {
                             &["C01", "C06", "C08"],
                             "A",
                             format!("{}#{}", it, fmt_assign(&a)),
-                            format!("hard=true score={} room=true", s),
+                            format!("valid=true hard=true score={} room=true", s),
                         ));
                     }
                     caobab_api::NodeDump::Infeasible(kids, _) => {
@@ -306,7 +306,7 @@ pub fn run_solve(data: &Value) -> Vec<Line> {
                     format!("statistics: executed {} = {} + {} + {}; leftover threads {} ({})", st.num_executed_subproblems, st.num_no_solution, st.num_infeasible, st.num_feasible, out.leftover, tag)).trivial(true));
                 if let Some((a, sc)) = res {
                     if j == 0 {
-                        lines.push(Line::spec(&["C01", "C06", "C08"], "A", format!("{}#{}", it, fmt_assign(a)), format!("hard=true score={} room=true", sc)));
+                        lines.push(Line::spec(&["C01", "C06", "C08"], "A", format!("{}#{}", it, fmt_assign(a)), format!("valid=true hard=true score={} room=true", sc)));
                     }
                 }
                 // trace inclusion: replay the real run through the engine model on the real tree
